@@ -191,3 +191,25 @@ fn c01_unreal2_string_hostile_instances() {
     assert!(b.current_position() <= 1);
     core::mem::forget(r);
 }
+
+// -- GameSpy 1: a one-byte reply (every value, NUL and backslash included) --------
+c01!(c01_any1_gs1, 9, gs1, &[], 1);
+c01!(c01_any1_gs1_vars, 9, gs1_vars, &[], 1);
+
+/// GameSpy 3 player / team field section with the first-index byte symbolic
+/// (every value, 255 included) and one entry: no panic, no overflow; the result
+/// is a value either way.
+#[cfg(kani)]
+#[kani::proof]
+#[kani::unwind(260)]
+#[kani::stub(alloc::fmt::format, stub_format)]
+#[kani::stub(core::str::from_utf8, stub_from_utf8)]
+#[kani::stub(core::slice::memchr::memchr, stub_memchr)]
+fn c01_t_gs3_field_first_index_any() {
+    let idx: u8 = kani::any();
+    // "ping_" NUL, index, one entry "5" NUL, end of field NUL
+    let packet = vec![b'p', b'i', b'n', b'g', b'_', 0, idx, b'5', 0, 0];
+    let r = gamedig::protocols::gamespy::three::verif_unit::parse_players_and_teams(vec![packet]);
+    kani::cover!(idx == 255, "last index");
+    core::mem::forget(r);
+}
